@@ -16,7 +16,7 @@ CLAIMS = {
 }
 CLAIMS.update({
  "C09": ("Soundness of the permission rules against the documented hierarchy for ~2^45 permission sets per query (all flags and record presences symbolic): poll/send/get_topic/update/delete/purge/create_topic/get_topics are allowed only if a global, stream or topic record OF THE TARGET grants it (so a record of another stream or topic never opens the target); no rule crashes for any combination of records (stream record without topic table). Thorough tier adds monotonicity in the flags, root, and update/delete taking effect.",
-         "real Permissioner::init_permissions_for_user + rule functions over fixed-capacity map models; targets (1,2) quick, (1,1) thorough; where the documentation is silent the oracle sides with the implementation; System-level wiring (every entry point calls the rule) is not covered"),
+         "real Permissioner::init_permissions_for_user + rule functions over fixed-capacity map models; quick: message rules for target (1,2), topic rules for target (1,1) with the topic table present or absent; thorough adds topic rules for (1,2) and the (1,1) message rules; where the documentation is silent the oracle sides with the implementation; System-level wiring (every entry point calls the rule) is not covered"),
  "C14": ("Segment::is_expired is true exactly for a CLOSED segment with a finite expiry whose newest message is older than the expiry, for every timestamp/now/duration; an open segment is full iff size >= max and is never expired; (thorough) the partition names only closed expired segments, never the one being written.",
          "de-asynced twin; the read of the newest message is summarised (its exactness is C02's subject); clock unit conversion stubbed; deletion I/O and restart clauses not covered"),
 })
